@@ -70,15 +70,15 @@ CLAIMED = {
  "C09": ("spec/MC_Tier.tla (DoEdit, DoEditRT, DoAppend) + TierProp.EditClauses/AppendClauses", "5 (C09)",
          "as C06 for editTimestamps (all offsets incl. clipping all entries, 3 reporting modes), shift round trip and appendTier over all pairs."),
  "C10": ("spec/MC_Tier.tla (DoUnion, DoDiff, DoInter, DoMergeL) + TierProp set-operation clauses", "5 (C10)",
-         "all ordered pairs of tiers of the bounded universe; Prop is the algebra of labelled time (LabelAt/Covered at all boundary probes)."),
+         "all ordered pairs of tiers of the bounded universe; Prop is the algebra of labelled time (LabelAt/Covered at all boundary probes); three embeddings incl. 'far'."),
  "C11": ("spec/MC_Tier.tla (DoInsert, DoDelete) + TierProp.InsertClausesI/P, DeleteClauses", "5 (C11)",
-         "all candidate entries x 3 collision modes x 2 reporting modes on every tier; live insert/delete histories compared step by step by TLC."),
+         "all candidate entries (fresh ones and the tier's own) x 3 collision modes x reporting modes (incl. an invalid value) on every tier; live insert/delete histories compared step by step by TLC; also on the 'far' embedding (times near 2000 s on a microsecond grid, where equality within a relative tolerance and equality part ways) and on tiers reached through a history."),
  "C13": ("spec/MC_Tier.tla action properties CopyOpsPure/FailedMutatorNoChange/ArgNeverChanges + TierProp.CopyOpClauses/MutatorClauses", "5 (C13)",
-         "every recorded call carries before/after snapshots of receiver and argument (taken on the exception path too); TLC checks the C13 clauses on every event."),
+         "every recorded call carries before/after snapshots of receiver and argument (taken on the exception path too); TLC checks the C13 clauses on every event; returned tiers are probed for aliasing (identity, and an edit of the result that must not show in the operands)."),
  "C12": ("spec/MC_Tg.tla + spec/TgImpl.tla + spec/TgProp.tla + spec/Trace_Tg.tla", "5 (C12)",
          "TLC explores every addTier/removeTier/renameTier/replaceTier history over 4 names, <= 5 slots, indices -2..len+2 and None to depth 5 against the list model (NamesUnique, SpanCovers, SpanNeverShrinks, NoFail); every transition of a reduced universe and of the tier-wise edits on all two-tier textgrids is replayed on real Textgrid objects and judged by TLC; tier-wise equality is judged against the real tier method applied to each tier."),
  "C14": ("spec/MC_Tier.tla (DoDejitter, DoMorph) + TierProp.DejitterClauses/MorphClauses", "5 (C14)",
-         "all (tier, reference) pairs x maxDifference, all equal-count pairs x label filters; ties at exactly maxDifference are strict under exact (dyadic) arithmetic."),
+         "all (tier, reference) pairs x maxDifference, all equal-count pairs x label filters; ties at exactly maxDifference are strict under exact (dyadic) arithmetic; references reached through a history (views read, an entry deleted); alignBoundariesAcrossTiers on random textgrids incl. the 'far' embedding."),
 }
 
 def main():
